@@ -534,6 +534,8 @@ def property_groups(gb, base, unit, d):
     if not names:
         raise Undecided("vacuity: no properties listed for %s" % unit.name)
     heavy = [n for n in names if classify(n) in HEAVY and not n.startswith("__CPROVER")]
+    if unit.split == "assert":
+        heavy += [n for n in names if n.startswith("vf_harness.assertion") and n not in heavy]
     light = [n for n in names if n not in set(heavy)]
     groups = [[n] for n in heavy]
     # light obligations (pointer/overflow/assigns checks) in a few buckets
